@@ -18,7 +18,8 @@ RULE = ("rotation: axis = direction (axis-aligned, integer or random unit vector
         "parallel to a coordinate axis and sin(theta) != 0. frame: point triples at scale "
         "1e-3..1e3 in classes generic (sin>=1e-3), exactly collinear (x,y,z axes, diagonals, "
         "integer directions), coincident middle point and exactly collinear triples after a "
-        "general rotation (collinear to rounding); non-trivial = not axis aligned. Distinct = "
+        "general rotation (collinear to rounding), handed over as list / tuple of vectors, one (3,3) array "
+        "(C, Fortran, view of a larger array) or row views of one array; non-trivial = not axis aligned. Distinct = "
         "sha1 of the case JSON.")
 ASSUMPTIONS = [
     "numpy linear algebra and the harness' 30-line oracle are trusted",
@@ -127,16 +128,39 @@ def frame_case(draw):
         if cls == "rotated-collinear":
             Rm = gen.random_rotation(rng)
             p = p @ Rm.T + rng.normal(size=3) * scale
-    return {"cls": cls, "points": p.tolist()}
+    return {"cls": cls, "points": p.tolist(),
+            "container": draw(st.sampled_from(["list", "list", "tuple", "array", "array-F", "array-view", "row-views"]))}
 
 
 def check_frame(case):
     pts = [np.array(p, dtype=float) for p in case["points"]]
     before = [p.copy() for p in pts]
-    res = lib("frame", gaddlemaps.calcule_base, pts)
+    # the three points are handed over the way callers do: a list / tuple of vectors, one (3, 3) array (C or Fortran
+    # ordered, or a view into a larger coordinate array), or a list of row views of one array
+    cont = case.get("container", "list")
+    backing = None
+    if cont == "list":
+        arg = pts
+    elif cont == "tuple":
+        arg = tuple(pts)
+    elif cont == "array":
+        arg = backing = np.array(pts)
+    elif cont == "array-F":
+        arg = backing = np.asfortranarray(np.array(pts))
+    elif cont == "array-view":
+        backing = np.vstack([np.full((2, 3), 7.5), np.array(pts), np.full((1, 3), -3.25)])
+        arg = backing[2:5]
+    else:
+        backing = np.array(pts)
+        arg = [backing[0], backing[1], backing[2]]
+    backing_before = None if backing is None else backing.copy()
+    res = lib("frame", gaddlemaps.calcule_base, arg)
     for p, b in zip(pts, before):
         if not np.array_equal(p, b):
-            raise PropertyViolation("frame-input", "input points modified")
+            raise PropertyViolation("frame-input", "input points modified (passed as %s)" % cont, cls="frame-input:" + cont)
+    if backing is not None and not np.array_equal(backing, backing_before):
+        raise PropertyViolation("frame-input", "the coordinate array the points were passed in (%s) was modified: %r -> %r"
+                                % (cont, backing_before.tolist(), backing.tolist()), cls="frame-input:" + cont)
     try:
         (v1, v2, v3), origin = res
         F = np.array([v1, v2, v3], dtype=float)
@@ -167,7 +191,7 @@ def check_frame(case):
     if not np.array_equal(origin, before[0]):
         raise PropertyViolation("frame-origin", "origin %r != p0  %s" % (origin.tolist(), info))
     nt = case["cls"] not in ("axis-x", "axis-y", "axis-z")
-    return {"nontrivial": nt, "classes": ["frame:" + case["cls"]]}
+    return {"nontrivial": nt, "classes": ["frame:" + case["cls"], "container:" + case.get("container", "list")]}
 
 
 def _bucket(case):
